@@ -31,7 +31,7 @@ structure SparseW where
   G : List Trip
   F : List (Nat × Coef)
   c : Coef
-  deriving Repr
+  deriving Repr, DecidableEq
 
 /-- the loop body of `expression_to_sparse_matrices` for one item -/
 def sparseStep (e : EDict) (acc : SparseW) (kc : EKey × Coef) : SparseW :=
